@@ -1669,6 +1669,11 @@ func c06(c *fw.Ctx) {
 	}
 	c.Floor("qr symbols with a foreign version word", 400)
 	c.Run("qr-fnc1-percent", func(r *fw.Rec) { c06QRFNC1Percent(r) })
+	for part := 0; part <= 4; part++ {
+		part := part
+		c.Run(fmt.Sprintf("qr-short-payloads/%d", part), func(r *fw.Rec) { c06QRShortPayloads(r, part) })
+	}
+	c.Floor("qr short byte payloads x hint sets (each parsed twice)", 15000)
 	c.Floor("qr alphanumeric segments with percent signs after FNC1", 9000)
 	bitCases := c.Pick(200, 6000)
 	for i := 0; i < bitCases; i++ {
